@@ -641,6 +641,7 @@ def rule_equality(repo: Repo) -> RuleResult:
     pk = L.prov(repo, k)
     r.site(k.qn + " [pair grounding]")
     okf = {}
+    filtered: list = []
     for n in ast.walk(k.node):
         if isinstance(n, ast.Tuple) and len(n.elts) == 2 and isinstance(n.ctx, ast.Load):
             try:
@@ -654,7 +655,28 @@ def rule_equality(repo: Repo) -> RuleResult:
                 k1 = {x[-2] for x in t1 if "askey" in x and f"attr:{fld}" in x and len(x) > 2 and x[-1] == "askey" and x[-2].startswith("unpack:")}
                 if via0 and via1 and k0 == {"unpack:0"} and k1 == {"unpack:1"}:
                     okf[fld] = True
-    if okf.get("equality_preconditions") and okf.get("inequality_preconditions"):
+                    # every pair must be grounded: no filter on the way
+                    pass
+    # every pair must be grounded: no test on the pairs (or their grounded images) may decide whether one is kept
+    for fld in ("equality_preconditions", "inequality_preconditions"):
+        tests = [(t, n) for n in ast.walk(k.node) if isinstance(n, (ast.SetComp, ast.ListComp, ast.GeneratorExp, ast.DictComp)) for g_ in n.generators for t in g_.ifs]
+        tests += [(n.test, n) for n in ast.walk(k.node) if isinstance(n, (ast.If, ast.IfExp)) and not getattr(n, "_inline_block", False)]
+        for t, owner_ in tests:
+            hit = False
+            for sub in ast.walk(t):
+                if isinstance(sub, (ast.Name, ast.Subscript, ast.Attribute)) and isinstance(getattr(sub, "ctx", None), ast.Load):
+                    try:
+                        trk = pk.trace(sub, keys=True)
+                    except KeyError:
+                        trk = set()
+                    if any(f"attr:{fld}" in x and "elem" in x for x in trk):
+                        hit = True
+            if hit:
+                filtered.append((fld, owner_))
+    if filtered:
+        r.fail(Finding("C02.equality", k, "pair-filtered", f"some (in)equality pairs are dropped while grounding ({unparse(filtered[0][1], 70)}): a constraint such as "
+                       f"(not (= ?x ?y)) called with the same object twice disappears", node=filtered[0][1]))
+    elif okf.get("equality_preconditions") and okf.get("inequality_preconditions"):
         r.ok({"grounding": "(map[a], map[b]) for (a, b) in pairs"})
     else:
         r.fail(Finding("C02.equality", k, "pair-grounding", f"(in)equality pairs are not grounded component-wise in order (recognised for {sorted(okf)})"))
